@@ -1203,6 +1203,10 @@ def _np_like(x):
         return None
 
 
+def _is_zero(v) -> bool:
+    return isinstance(v, (int, float)) and not isinstance(v, bool) and v == 0
+
+
 def candidate_values(pair: dict, pname: str, param: inspect.Parameter, vals: dict) -> list:
     """Non-default values for one parameter of the original: by name, then by the type of its default.
     Every candidate is tried eagerly on the original first; what it rejects is discarded."""
@@ -1225,7 +1229,7 @@ def candidate_values(pair: dict, pname: str, param: inspect.Parameter, vals: dic
         if first is not None else [],
         "stable": [False], "descending": [True], "endpoint": [False], "retstep": [True], "num": [7],
         "side": ["right"], "indexing": ["ij"], "mode": ["clip", "wrap"], "fill_value": [2],
-        "approximate": [False, True], "negative_slope": [0.3], "alpha": [0.7], "epsilon": [1e-3], "eps": [1e-3],
+        "approximate": [False, True], "negative_slope": [0.3], "alpha": [0.7], "epsilon": [1e-3, 0.0], "eps": [1e-3, 0.0],
         "ord": [1, 2], "rcond": [1e-3], "n": [2], "prepend": [0.0], "append": [0.0], "base": [3.0],
         "unique_indices": [True], "indices_are_sorted": [True], "promote_integers": [False],
         "use_bias": [False], "deterministic": [True], "scale": [0.5], "is_causal": [True],
@@ -1516,6 +1520,7 @@ def parameter_sweep(chk, rng, pairs: list[dict], thorough: bool, shard=None, onl
         stats["targets"] += 1
         params = p["so"].parameters
         work = []        # (vals, what, producers)
+        pair_work = []   # the same for pairs of parameters; run after the singles with their own budget
         for ci, (cap, tcname) in enumerate(caps):
             try:
                 vals = dict(p["so"].bind(*cap[0], **cap[1]).arguments)
@@ -1540,6 +1545,7 @@ def parameter_sweep(chk, rng, pairs: list[dict], thorough: bool, shard=None, onl
                      and q.default is not K.empty]
             if ci > 0 and not thorough:
                 extra = []
+            singles = []
             for n in extra:
                 cands = candidate_values(p, n, params[n], vals)
                 if not thorough:
@@ -1547,8 +1553,26 @@ def parameter_sweep(chk, rng, pairs: list[dict], thorough: bool, shard=None, onl
                 for v in cands:
                     prods = ["id", "abs", "mul_self", "pow2"] if (thorough or n == "dtype") else ["id", "abs"]
                     work.append(({**vals, n: v}, {"capture": tcname, "param": n, "value": repr(v)[:40]}, prods))
+                    singles.append((n, v))
+            # PAIRS of non-default parameters: a wrapper may honour each parameter alone and drop one of them
+            # on a fast path that only some OTHER parameter's value selects (quick: every pair once, first
+            # capture only; thorough: every pair of candidate values)
+            if ci == 0 or thorough:
+                seen_pairs = set()
+                for i1, (n1, v1) in enumerate(singles):
+                    for (n2, v2) in singles[i1 + 1:]:
+                        if n1 == n2 or (not thorough and (n1, n2) in seen_pairs and not (_is_zero(v1) or _is_zero(v2))):
+                            continue
+                        seen_pairs.add((n1, n2))
+                        pair_work.append(({**vals, n1: v1, n2: v2},
+                                          {"capture": tcname, "param": n2, "with": n1,
+                                           "value": repr(v2)[:30] + " & " + n1 + "=" + repr(v1)[:30]}, ["id"]))
         calls = 0
-        for vals, what, prods in work:
+        n_single = len(work)
+        work = work + pair_work
+        for wi, (vals, what, prods) in enumerate(work):
+            if wi == n_single:
+                calls = max(0, budget_calls - (10 ** 9 if thorough else 10))    # pairs: their own (smaller) budget
             stats["assignments"] += 1
             forms = sweep_forms(p, list(vals), not thorough)
             if "param" in what and not thorough:
